@@ -670,6 +670,52 @@ pub fn evalmem(repo: &Path) -> Result<String, String> {
         out.push_str("/-- the `Jump` arm of `lir::eval` (checked verbatim: `program_counter = block_map[b]; continue;`) -/\ndef eval_Jump (b : Nat) : Nat := b\n\n");
     }
 
+    // ---- access widths: `IrType::bytes` (value.rs) and the arms that use it
+    {
+        let value = find::parse(repo, "src/lir/value.rs")?;
+        let f = find::func(&value, "bytes", Some("IrType"))?;
+        let mut cx = Cx::default();
+        for v in ["Bool", "U8", "U16", "U32", "U64", "I8", "I16", "I32", "I64", "F32", "F64", "Char", "Asn", "Pointer"] {
+            cx.paths.insert(v.into(), format!("IrType.{v}"));
+            cx.paths.insert(format!("IrType::{v}"), format!("IrType.{v}"));
+        }
+        cx.paths.insert("usize::BITS".into(), "Usize.BITS".into());
+        cx.types.insert("usize".into(), "Nat".into());
+        let body = cx.block(&f.block.stmts).map_err(|e| format!("IrType::bytes: {e}"))?;
+        out.push_str(&format!(
+            "/-- `IrType::bytes`: the number of bytes the evaluator reads for a value of this type -/\ndef IrType.bytes (dbg : Bool) (self : IrType) : Res Nat :=\n {body}\n\n"
+        ));
+        // the evaluator reads `ty.bytes()` bytes; the compiled code loads a `cranelift_type(ty)`
+        let f = find::func(&eval, "eval", None)?;
+        let ms = find::matches_on(&f.block, "instruction");
+        let arm = find::arm_for(&ms[0], "Read")?;
+        let want = "{let&IrValue::Pointer(from)=eval_operand(&vars,from)else{panic!()};letsize=ty.bytes();letres=mem.read_slice(from,size);letval=IrValue::from_slice(ty,res);vars.insert(to.clone(),val);}";
+        if nospace(&txt(&arm.body)) != want {
+            return Err(format!("Read arm of eval differs from the modelled `mem.read_slice(from, ty.bytes())` → `IrValue::from_slice(ty, …)`: {}", txt(&arm.body)));
+        }
+        let g = find::func(&codegen, "instruction", Some("FuncGen"))?;
+        let gms = find::matches_on(&g.block, "instruction");
+        let garm = find::arm_for(&gms[0], "Read")?;
+        let want = "{letc_ty=self.module.cranelift_type(ty);let(from,_)=self.operand(from);letres=self.ins().load(c_ty,MEMFLAGS,from,0);letto=self.variable(to,c_ty);self.def(to,res);}";
+        if nospace(&txt(&garm.body)) != want {
+            return Err(format!("Read arm of FuncGen::instruction differs from the modelled `load(cranelift_type(ty), from, 0)`: {}", txt(&garm.body)));
+        }
+        // Offset / Copy: the same offset and size on both sides
+        for (arm_name, ev, cgw) in [
+            ("Offset", "letnew=mem.offset_by(from,*offsetasusize);", "lettmp=self.ins().iadd_imm(from,*offsetasi64);"),
+            ("Copy", "mem.copy(to,from,*sizeasusize)", "*sizeasu64,"),
+        ] {
+            let a = find::arm_for(&ms[0], arm_name)?;
+            if !nospace(&txt(&a.body)).contains(ev) {
+                return Err(format!("{arm_name} arm of eval no longer contains `{ev}`"));
+            }
+            let a = find::arm_for(&gms[0], arm_name)?;
+            if !nospace(&txt(&a.body)).contains(cgw) {
+                return Err(format!("{arm_name} arm of FuncGen::instruction no longer contains `{cgw}`"));
+            }
+        }
+    }
+
     // ---- Call: how arguments are bound to the callee's parameters
     {
         let f = find::func(&eval, "eval", None)?;
